@@ -95,6 +95,18 @@ fn judge_fault(sc: &Scenario, ex: &mut Exec, kind: K, idx: u64, errno: i32, fire
                 if t.is_none() || (t != sc.pre_writer && t != sc.pre_reader && t != new_tag) {
                     return mk("wrong-data", format!("{} returned {} after {:?} #{} failed with {}", sc.op.name(), describe_bytes(data), kind, idx, errno_name(errno)));
                 }
+                // a configured consistency checker is shown the populated
+                // copy before a cached value is returned: a failure to get
+                // the scratch file for that is not a reason to skip it
+                let compares = matches!(sc.spec, HandleSpec::Stack { checker: CheckerKind::Lenient, .. }) && !matches!(sc.op, Op::GetOrUpdate { action: Action::Replace, .. });
+                // (a lookup that failed with ENOENT/ESTALE is a documented miss:
+                // the call then populates and publishes instead of comparing)
+                if compares && t != new_tag && (!absent_errno || kind == K::OpenTmp) {
+                    let shown = ex.w.log.lock().unwrap().iter().any(|e| parse_value(&e.2).map(|x| x.1) == new_tag || parse_value(&e.3).map(|x| x.1) == new_tag);
+                    if !shown {
+                        return mk("masked-check", format!("{} returned the cached value although {:?} #{} failed with {}, and the consistency checker was never shown the populated copy", sc.op.name(), kind, idx, errno_name(errno)));
+                    }
+                }
                 if t == new_tag && wtags.is_empty() {
                     return mk("masked-ensure", format!("{} returned the freshly populated value although {:?} #{} failed with {}, but nothing is stored in the write side", sc.op.name(), kind, idx, errno_name(errno)));
                 }
@@ -156,8 +168,17 @@ impl Check for C18 {
         let calls: Vec<(u64, K, bool, String)> = ex0.trace.iter().filter(|r| r.lib && r.proc == 0).map(|r| (r.call_index, r.kind, r.kind == K::OpenTmp || (r.kind == K::Open && r.arg & kismet_vfs::kernel::O_CREATE != 0), r.path.clone())).collect();
         let mut fired_total = 0u64;
         'outer: for (idx, kind, creating, _path) in calls.iter() {
-            for errno in errnos_for(*kind, *creating) {
+            let mut errnos = errnos_for(*kind, *creating);
+            if *kind == K::OpenTmp {
+                // the scratch directory has just been removed: the anonymous
+                // open fails with ENOENT, and so does the create-and-unlink
+                // fallback of tempfile() in the same directory
+                errnos.push(libc::ENOENT);
+            }
+            for errno in errnos {
                 let (target, e) = (*idx, errno);
+                let gone_dir = *kind == K::OpenTmp && e == libc::ENOENT;
+                let mut gone: Option<String> = None;
                 let fired = std::sync::Arc::new(std::sync::Mutex::new((false, String::new(), *kind)));
                 let f2 = fired.clone();
                 let mut ex = execute(&sc, |w| {
@@ -165,6 +186,11 @@ impl Check for C18 {
                         if info.proc == 0 && info.call_index == target {
                             let mut g = f2.lock().unwrap();
                             *g = (true, info.raw.to_string(), info.kind);
+                            if gone_dir {
+                                gone = Some(format!("{}/", info.raw.trim_end_matches('/')));
+                            }
+                            Some(e)
+                        } else if info.proc == 0 && info.call_index == target + 1 && info.kind == K::Open && info.arg & kismet_vfs::kernel::O_CREATE != 0 && gone.as_deref().map(|d| info.raw.starts_with(d)).unwrap_or(false) {
                             Some(e)
                         } else {
                             None
